@@ -7,7 +7,7 @@ from rules import regs
 
 META = {
     "explanation": (
-        "Static analysis over rustc MIR. Decides: (1) CallContext::with_ccx restores registers and text on every path after the callback with no early exit in between, and every trampoline primitive (mmap/jump/call_fn/munmap, which overwrite code at ccx.pc and registers) is only invoked from closures passed to with_ccx; retrieve_original_state persists the saved registers and rewrites the saved word at the saved pc; "
+        "Static analysis over rustc MIR. Decides: (1) CallContext::with_ccx restores registers and text on every path after the callback with no early exit in between, and every trampoline primitive (mmap/jump/call_fn/munmap, which overwrite code at ccx.pc and registers) is only invoked from closures passed to with_ccx; retrieve_original_state persists the saved registers and rewrites the saved word at the saved pc; the extended processor state (x87/SSE/AVX, NT_X86_XSTATE) is saved from the same thread and restored next to them; "
         "(2) `call` runs with all breakpoints un-patched and they are re-patched on every exit; "
         "(3) argument registers equal the SysV integer sequence rdi,rsi,rdx,rcx,r8,r9 with at most 6 arguments; mmap/munmap use the Linux syscall convention (rax=9/11, rdi,rsi,rdx,r10,r8,r9); "
         "(4) trampoline words: FF D0 CC (call *%rax; int3), FF E0 (jmp *%rax) and 0F 05 (syscall) in the low bytes with the upper 6 bytes of the original word kept (bit-provenance); "
@@ -56,6 +56,40 @@ def rule_restore(ck):
         errs = r.error_exit_blocks()
         reach = cut_edges_reach(r, [0], {wm[0].bb} | errs, set())
         ck.ob("pair.ccx", "retrieve_original_state/text-restored-on-normal-exit", not (reach & rets), "", r.loc())
+    # "restores every register": the called function may use x87 / SSE / AVX registers as it likes (System V: all of
+    # them are caller-saved), the general purpose register file is not the whole thread state. The extended state is
+    # saved by CallContext::new from the thread the registers come from, and restored next to them.
+    XS = "debugger::call::ExtendedState"
+    ck.rule("pair.ext_state", "the call context saves the thread's extended processor state (PTRACE_GETREGSET NT_X86_XSTATE: x87, SSE, AVX…) together with the general purpose registers, from the same thread, and retrieve_original_state writes it back (PTRACE_SETREGSET, same register set) on the saved pid on every normal exit")
+    nw = ck.anchor(CCX + "::new")
+    cur = [c for c in nw.calls() if c.name == XS + "::current"]
+    rcur = [c for c in nw.calls() if c.name.endswith("RegisterMap::current")]
+    ok = len(cur) == 1 and len(rcur) == 1 and expr_of(nw, cur[0].args[0]) == expr_of(nw, rcur[0].args[0])
+    ck.ob("pair.ext_state", "CallContext::new/extended-state-saved-from-the-same-thread", ok, f"ExtendedState::current calls={len(cur)}", nw.loc(), what="the injected call does not save the floating point / vector registers of the stopped thread: whatever the called function (or the formatting code behind vard/argd) leaves in xmm registers is what the program continues with")
+    xper = [c for c in r.calls() if c.name == XS + "::persist"]
+    ok = len(xper) == 1
+    d = ""
+    if ok:
+        a = expr_str(expr_of(r, xper[0].args[0]), 6)
+        p_ = expr_str(expr_of(r, xper[0].args[1]), 6)
+        d = f"persist({a}, {p_})"
+        rets = set(r.return_blocks())
+        errs = r.error_exit_blocks()
+        reach = cut_edges_reach(r, [0], {xper[0].bb} | errs, set())
+        ok = ".ext_state" in a and ".pid" in p_ and not (reach & rets)
+    ck.ob("pair.ext_state", "retrieve_original_state/extended-state-restored-on-saved-pid", ok, d, r.loc())
+    for nm, req in (("current", "PTRACE_GETREGSET"), ("persist", "PTRACE_SETREGSET")):
+        g = ck.anchor(f"{XS}::{nm}")
+        pt = [c for c in g.calls() if c.name.endswith("::ptrace")]
+        ok = len(pt) == 1
+        d = ""
+        if ok:
+            rq = expr_of(g, pt[0].args[0])
+            st = expr_of(g, pt[0].args[2])
+            want = {"PTRACE_GETREGSET": 0x4204, "PTRACE_SETREGSET": 0x4205}[req]
+            d = f"ptrace({expr_str(rq, 4)}, pid, {expr_str(st, 4)}, iov)"
+            ok = (rq == ("const", want) or req in expr_str(rq, 4)) and (st == ("const", 0x202) or "NT_X86_XSTATE" in expr_str(st, 4)) and "arg" in expr_str(expr_of(g, pt[0].args[1]), 6)
+        ck.ob("pair.ext_state", f"ExtendedState::{nm}/{req}(NT_X86_XSTATE)-on-the-given-thread", ok, d, g.loc())
     prims = {CH + "::mmap", CH + "::jump", CH + "::call_fn", CH + "::munmap"}
     sites = who_calls(prog, lambda c: c.name in prims)
     ck.floor("wmc.trampoline", "trampoline primitive call sites", len(sites), 5)
